@@ -56,7 +56,7 @@ BOUNDS = {
 OUTSIDE = [
     "convergence; conditioning beyond non-singularity (the solve contract A x = b presupposes a unique solution)",
     "Ky Fan / Procrustes optimality of the SVD-based block updates (SVD contract)",
-    "CP regressor with more than one output mode; Tucker regressor on vector samples (raises: known finding of C19); CMTF beyond two sweeps / sizes (2,3,2)x3",
+    "Tucker regressor on vector samples (raises: known finding of C19); CMTF beyond two sweeps / sizes (2,3,2)x3",
     "the consequence 'reported errors are non-increasing' combines this with C06",
 ]
 TRUSTED = ["z3", "solve contract (A x = b)", "SVD contract for HOOI/PARAFAC2 block optimality", "generic lemmas proved by z3 in this run (I1 per shape, 1-D clipped quadratic)"]
@@ -79,6 +79,10 @@ def configs(tier):
         for opt in ("plain", "normalize"):
             add("cp_als", shape=shp, R=R, opt=opt, K=2)
             add("hals_cp", shape=shp, R=R, opt=opt, K=2)
+        if shp == (2, 2, 2) and R == 2:
+            # a fixed mode with normalisation: the fixed factor is rescaled by every cp_normalize although it is never updated
+            add("cp_als", shape=shp, R=R, opt="normalize", K=2, fixed=(0,))
+            add("hals_cp", shape=shp, R=R, opt="normalize", K=2, fixed=(0,))
         add("lemma_I1", rows=shp[0], R=R, cols=int(np.prod(shp[1:])))
         for m in range(len(shp)):
             add("unfolded_objective", shape=shp, R=R, m=m)
@@ -93,6 +97,8 @@ def configs(tier):
     for xs, ys, R in [((2, 2), (), 1), ((2,), (2,), 1), ((2,), (2,), 2), ((2, 2), (2,), 1)] + ([] if q else [((2, 2), (), 2), ((2, 2), (2,), 2)]):
         add("cp_regressor", xs=xs, ys=ys, R=R, ns=3)
     add("cp_regressor", xs=(2, 2), ys=(), R=1, ns=3, K=2)  # two sweeps
+    add("cp_regressor", xs=(2,), ys=(2, 2), R=1, ns=2)  # several output modes
+    add("cp_regressor", xs=(2,), ys=(2, 2, 2), R=1, ns=2)  # three output modes: moving an axis differs from swapping two
     for shp, rank in [((2, 2, 2), [1, 2, 1, 1]), ((2, 2, 2), [2, 1, 1, 2])] + ([] if q else [((2, 3, 2), [1, 1, 2, 1]), ((2, 2, 2), [2, 1, 2, 2])]):
         for ls in ("normal_eq", "lstsq"):
             add("tr_als", shape=shp, rank=rank, ls=ls)
@@ -166,9 +172,9 @@ def _cp_sweeps(E, cfg, hals):
         X = np.asarray(E.real("X", shp, nn=hals), dtype=float)
         F0 = [np.asarray(E.real(f"F{k}", (n, R), nn=hals), dtype=float) for k, n in enumerate(shp)]
         fn = non_negative_parafac_hals if hals else parafac
-        ok = _descends(fn, X, R, F0, opt == "normalize", hals)
+        ok = _descends(fn, X, R, F0, opt == "normalize", hals, fixed=tuple(cfg.get("fixed", ())))
         for s_ in range(K):
-            for m in range(len(shp)):
+            for m in [m_ for m_ in range(len(shp)) if m_ not in tuple(cfg.get("fixed", ()))]:
                 for nm in ("UtU_is_gram_of_design", "UtM_is_mttkrp", "warm_start_is_current_factor", "system_matrix_is_gram_of_design", "rhs_is_mttkrp", "normalisation_input_is_current_iterate"):
                     E.prove(f"s{s_}m{m}/{nm}", ok)
         E.prove("one_kernel_call_per_block", ok)
@@ -187,6 +193,9 @@ def _cp_sweeps(E, cfg, hals):
     X = E.real("X", shp, nn=hals)
     F0 = [E.real(f"F{k}", (n, R), nn=hals) for k, n in enumerate(shp)]
     kw = dict(n_iter_max=K, init=(None, [np.array(f) for f in F0]), tol=0, normalize_factors=(opt == "normalize"))
+    fixed = tuple(cfg.get("fixed", ()))
+    if fixed:
+        kw["fixed_modes"] = list(fixed)
     if hals:
         non_negative_parafac_hals(np.array(X), R, **kw)
         calls = hals_calls
@@ -195,7 +204,8 @@ def _cp_sweeps(E, cfg, hals):
         calls = [(c[1][0], c[1][1], None, c[2]) for c in sym.CTX.stub_calls if c[0] == "solve"]
     norm_calls = [c for c in sym.CTX.stub_calls if c[0] == "cp_normalize"]
     N = len(shp)
-    E.prove("one_kernel_call_per_block", len(calls) == K * N)
+    modes_list = [m_ for m_ in range(N) if m_ not in fixed]
+    E.prove("one_kernel_call_per_block", len(calls) == K * len(modes_list))
     # mirror of the sweep's data flow
     w = None
     F = [np.asarray(f, dtype=object) for f in F0]
@@ -203,7 +213,7 @@ def _cp_sweeps(E, cfg, hals):
     ci = 0
     ni = 0
     for s_ in range(K):
-        for m in range(N):
+        for m in modes_list:
             Kt = khatri_rao_design(F, w, m)
             gram = matmul(Kt.T, Kt)
             rhs = matmul(unfold_oracle(Xo, m), Kt)  # X_(m) K~ : (I_m x R)
@@ -219,7 +229,7 @@ def _cp_sweeps(E, cfg, hals):
                 E.prove_eq(f"s{s_}m{m}/system_matrix_is_gram_of_design", a0, gram.T)
                 E.prove_eq(f"s{s_}m{m}/rhs_is_mttkrp", a1, rhs.T)
             F[m] = np.asarray(outp, dtype=object).T
-            last_in_sweep = m == N - 1
+            last_in_sweep = m == modes_list[-1]
             if opt == "normalize" and ((hals and not last_in_sweep) or (not hals and last_in_sweep) or (hals and last_in_sweep)):
                 # parafac normalises once per sweep; the HALS variant after every mode but the last, and again at the end of the sweep
                 if ni < len(norm_calls):
@@ -233,7 +243,7 @@ def _cp_sweeps(E, cfg, hals):
                     ni += 1
 
 
-def _descends(fn, X, R, F0, normalize, nonneg, sweeps=5):
+def _descends(fn, X, R, F0, normalize, nonneg, sweeps=5, fixed=()):
     """concrete experiment: objective ||X - dense(iterate)||^2 after each sweep (iterates from prefix runs) never increases"""
     rng = np.random.RandomState(0)
     cases = [(X, F0)]
@@ -249,7 +259,8 @@ def _descends(fn, X, R, F0, normalize, nonneg, sweeps=5):
         prev = None
         for k in range(1, sweeps + 1):
             try:
-                res = fn(Xc.copy(), R, n_iter_max=k, init=(None, [f.copy() for f in Fc]), tol=0, normalize_factors=normalize)
+                kwf = dict(fixed_modes=list(fixed)) if fixed else {}
+                res = fn(Xc.copy(), R, n_iter_max=k, init=(None, [f.copy() for f in Fc]), tol=0, normalize_factors=normalize, **kwf)
             except Exception:
                 break
             w, fs = res
@@ -563,20 +574,22 @@ def h_cp_regressor(E, cfg):
             E.prove_eq(f"block{i}/rhs_is_design_transpose_times_targets", B_code, b)
             W[i] = out.reshape(n_i, R)
         else:
-            # single output mode: unknown is (R x O); design g[s, r] from the input factors
-            g = np.asarray(_reg_pred(X, W[:n_in], n_in), dtype=object) if False else None
-            Wt = list(W[:n_in])
-            ns_ = ns
-            G = np.empty((ns_, R), dtype=object)
+            # output mode j = i - n_in: unknown is (R x O_j); design rows run over (sample, indices of the OTHER output modes), column r is
+            # the prediction with this mode's factor replaced by the unit row e_r; targets: y with axis j moved last, flattened alike
+            j = i - n_in
+            cols = []
             for r in range(R):
-                # g[:, r]: prediction with a single unit output weight on component r
-                ones_out = [np.zeros((1, R), dtype=object)]
-                ones_out[0][0, r] = 1
-                G[:, r] = np.asarray(_reg_pred(X, Wt + ones_out, n_in), dtype=object)[:, 0]
+                Wt = list(W)
+                er = np.zeros((1, R), dtype=object)
+                er[0, r] = 1
+                Wt[i] = er
+                cols.append(np.asarray(_reg_pred(X, Wt, n_in), dtype=object).ravel())
+            G = np.stack(cols, axis=1)
             A = matmul(G.T, G)
             for d in range(R):
                 A[d, d] = A[d, d] + lam
-            B = matmul(G.T, yo.reshape(ns_, -1))
+            Yj = np.moveaxis(yo, 1 + j, -1).reshape(-1, ys[j])
+            B = matmul(G.T, Yj)
             E.prove_eq(f"block{i}/system_matrix_is_ridge_gram", A_code, A)
             E.prove_eq(f"block{i}/rhs_is_design_transpose_times_targets", B_code, B)
             W[i] = out.T
@@ -597,14 +610,17 @@ def h_tr_als(E, cfg):
         ok = True
         rng = np.random.RandomState(3)
         for trial in range(6):
-            Xc = X + (rng.randn(*shp) if trial else 0)
-            errs = []
-            try:
-                tensor_ring_als(Xc, list(rank), ls_solve=ls, n_iter_max=8, tol=0, random_state=9, callback=lambda tr, e: errs.append(float(e)))
-            except Exception:
-                continue
-            if any(np.isfinite(a) and np.isfinite(b) and b > a * (1 + 1e-7) + 1e-12 for a, b in zip(errs, errs[1:])):
-                ok = False
+            # the relative error is scale invariant: the same data in other units must give non-increasing sequences too
+            # (an absolute regularisation or threshold inside the block solves only bites on small-magnitude data)
+            for sc in (1.0, 1e-3, 1e-5, 1e-8, 1e3):
+                Xc = (X + (rng.randn(*shp) if trial else 0)) * sc
+                errs = []
+                try:
+                    tensor_ring_als(Xc, list(rank), ls_solve=ls, n_iter_max=8, tol=0, random_state=9, callback=lambda tr, e: errs.append(float(e)))
+                except Exception:
+                    continue
+                if any(np.isfinite(a) and np.isfinite(b) and b > a * (1 + 1e-6) + 1e-9 for a, b in zip(errs, errs[1:])):
+                    ok = False
         for d in range(n):
             E.prove(f"block{d}/stationary_in_updated_core", ok)
         E.prove("mirror_matches_returned_cores", ok)
